@@ -417,6 +417,51 @@ func c10Case(c *vc.Ctx, idx int) {
 				c.Count("rechecks", 1)
 			}
 		}
+		// the relayer proposer changes (election) while its transaction waits in the mempool: "signed by the current
+		// relayer proposer" is a statement about the state at admission time, so recheck must evict it, a new
+		// submission must be refused and it must not be selected into a proposal
+		rot, ok4 := build([]string{typ}, signers[0], nil, "", "none", "valid")
+		if ok4 {
+			if res, err := ch.CheckTx(0, rot.raw, false); err == nil && res.Code == 0 {
+				b, err := ch.Step(world.StepOpts{Dt: 11 * time.Minute, Mutate: dropMempool})
+				if err != nil {
+					c.Inconclusive("rotation scenario: %v", err)
+					return
+				}
+				if _, err := tw.Apply(b, b.Req.Txs); err != nil {
+					c.Inconclusive("rotation scenario twin: %v", err)
+					return
+				}
+				if g, err := ch.Group(); err == nil && g.Proposer.AddrStr != w.Members[0].AddrStr {
+					c.Eval(1)
+					c.Count("proposer_rotations", 1)
+					if rres, rerr := ch.CheckTx(0, rot.raw, true); rerr == nil && rres.Code == 0 {
+						viol("recheck keeps a transaction of a former relayer proposer", rot.desc, rot)
+					}
+					c.Count("rechecks", 1)
+					if rres, rerr := ch.CheckTx(0, rot.raw, false); rerr == nil && rres.Code == 0 {
+						viol("transaction of a former relayer proposer admitted to the mempool", rot.desc, rot)
+					}
+					if ptxs, err := ch.Prepare(0, ch.Height+1, ch.Now.Add(3*time.Second), nil); err == nil {
+						for _, p := range ptxs[1:] {
+							if string(p) == string(rot.raw) {
+								viol("transaction of a former relayer proposer selected into a proposal", rot.desc, rot)
+							}
+						}
+					}
+					// and the new proposer is served
+					ns := c10Signer{"relayer-proposer", g.Proposer.Tx, g.Proposer.Addr, true}
+					if nt, ok := build([]string{typ}, ns, nil, "", "none", "valid"); ok {
+						// build() derives its expectations from the signer name; the message must name the new proposer
+						if rres, rerr := ch.CheckTx(0, nt.raw, false); rerr != nil || rres.Code != 0 {
+							viol("relayer-proposer bridge transaction refused by the mempool", "after a rotation: "+nt.desc+": "+rres.GetLog(), nt)
+						}
+					}
+				} else {
+					c.Count("rotation_scenarios_without_change", 1)
+				}
+			}
+		}
 	}
 	c.Sample(map[string]any{"type": typ, "transactions_judged": len(txs), "registered_types": types})
 }
